@@ -5,8 +5,8 @@
 namespace vh {
 // slice kinds: i = run-time index, r = std::pair<I,I>, t = std::tuple<I,I>, f = full_extent,
 //              s = strided_slice<I,I,I>, I = integral_constant index 1, R = tuple<IC<1>,IC<3>>,
-//              S = strided_slice<I, IC<4>, IC<2>> (run-time offset)
-struct SI {}; struct SR {}; struct ST {}; struct SF {}; struct SS {}; struct SCI {}; struct SCR {}; struct SCS {};
+//              S = strided_slice<I, IC<4>, IC<2>> (run-time offset), Q = strided_slice<I, IC<5>, IC<2>>
+struct SI {}; struct SR {}; struct ST {}; struct SF {}; struct SS {}; struct SCI {}; struct SCR {}; struct SCS {}; struct SCQ {};
 template <class I> using icI = std::integral_constant<I, 1>;
 template <class I> auto mkSlice(SI, const std::vector<long long>& a, size_t& p) { return static_cast<I>(a[p++]); }
 template <class I> auto mkSlice(SR, const std::vector<long long>& a, size_t& p) { I b = static_cast<I>(a[p++]); I e = static_cast<I>(a[p++]); return std::pair<I, I>{b, e}; }
@@ -17,6 +17,7 @@ template <class I> auto mkSlice(SCI, const std::vector<long long>& a, size_t& p)
 template <class I> auto mkSlice(SCR, const std::vector<long long>& a, size_t& p) { p += 2; return std::tuple<std::integral_constant<I, 1>, std::integral_constant<I, 3>>{}; }
 template <class I> auto mkSlice(SCS, const std::vector<long long>& a, size_t& p) { I o = static_cast<I>(a[p++]); p += 2; return md::strided_slice<I, std::integral_constant<I, 4>, std::integral_constant<I, 2>>{o, {}, {}}; }
 
+template <class I> auto mkSlice(SCQ, const std::vector<long long>& a, size_t& p) { I o = static_cast<I>(a[p++]); p += 2; return md::strided_slice<I, std::integral_constant<I, 5>, std::integral_constant<I, 2>>{o, {}, {}}; }
 template <class M> const char* layoutName() {
   using L = typename M::layout_type;
   return std::is_same_v<L, md::layout_left> ? "left" : std::is_same_v<L, md::layout_right> ? "right" : std::is_same_v<L, md::layout_stride> ? "stride" : "other";
